@@ -40,7 +40,7 @@ def run_history(case):
     before = set(threading.enumerate())
     clients = []           # (token, thread, box)
     out = {"returned": 0, "hung_op": None, "socket_open": None, "workers_dead": None, "replies_ok": True,
-           "notes": [], "ctor_raised": None}
+           "notes": [], "ctor_raised": None, "serve_alive": None}
     ntok = [0]
 
     def token():
@@ -160,6 +160,14 @@ def run_history(case):
         reg.open_all()
         out["notes"].append("threads: %s" % sorted(t.name for t in threading.enumerate() if t not in before))
         return out, True
+    # is the serving thread still inside its loop?  After a stop call that follows the last "S" it has to end.
+    if st["serve"] is not None:
+        last_s = max(i for i, o in enumerate(hist) if o == "S")
+        if any(o in ("SD", "CL") for o in hist[last_s:]):
+            st["serve"].join(hang)
+        out["serve_alive"] = st["serve"].is_alive()
+    else:
+        out["serve_alive"] = False
     # in-flight requests eventually complete, each with its own reply
     reg.open_all()
     for tok, t, box in clients:
@@ -205,6 +213,7 @@ def main():
         except BaseException as ex:   # noqa
             import traceback
             out, dirty = {"harness_error": "%s: %s" % (type(ex).__name__, ex), "trace": traceback.format_exc()[-1500:]}, True
+        out["_dirty"] = bool(dirty)
         sys.stdout.write(json.dumps(out) + "\n")
         sys.stdout.flush()
         if dirty:
